@@ -106,6 +106,7 @@ func rulesC07(c *Ctx) {
 	c07RepeatSupport(c)
 	c07Round3(c, c.P.BuildIndex())
 	c07Round4(c, c.P.BuildIndex())
+	c07Round5(c, "C07.recover")
 	if fn := c.needFn(rule, "storage/mkvs/db/badger.(*badgerNodeDB).Finalize"); fn != nil {
 		flush := CallsTo(fn, "versionBatch.Flush", bWB+".Flush", "NewWriteBatchAt")
 		commit := CallsTo(fn, "tx.CommitAt", bTX+".CommitAt", "")
